@@ -139,7 +139,7 @@ ADV = [lambda x, r: np.zeros(3), lambda x, r: np.array([np.pi / 2, np.pi, 3 * np
 
 
 def plan(tier, seed):
-    n = 200 if tier == "quick" else 5000
+    n = 500 if tier == "quick" else 5000
     return [["bm", i] for i in range(n)] + [["adv", i] for i in range(n // 3)]
 
 
